@@ -121,6 +121,18 @@ def _patch_builder():
         return r
 
     pb.QuicPacketBuilder.start_packet = start_packet
+    orig_sf = pb.QuicPacketBuilder.start_frame
+
+    def start_frame(self, frame_type, *a, **k):
+        try:
+            return orig_sf(self, frame_type, *a, **k)
+        except pb.QuicPacketBuilderStop:
+            tr = _CURRENT[0]
+            if tr is not None:
+                tr.frame_stops.append((int(frame_type), len(tr.starts), len(tr.ackcalls)))
+            raise
+
+    pb.QuicPacketBuilder.start_frame = start_frame
     _PATCHED[0] = True
 
 
@@ -141,6 +153,7 @@ class Tracer:
         self.cur = []
         self.starts = []
         self.ackcalls = []
+        self.frame_stops = []
         self.wa_entered = False
         self.lrp = [-1, -1, -1]
         self.lrt = [None, None, None]
@@ -206,7 +219,7 @@ class Tracer:
             o_log = tr.log_event
 
             def log_event(*, category, event, data):
-                if event == "packet_received":
+                if event == "packet_received" and "packet_number" in data.get("header", {}) and "frames" in data:
                     me.cur.append(("pkt", data["header"]["packet_type"], data["header"]["packet_number"], data["frames"]))
                 return o_log(category=category, event=event, data=data)
 
@@ -291,6 +304,7 @@ class Tracer:
         finally:
             _CURRENT[0] = None
         self.raised(n_raised, "receive_datagram")
+        self.hist.append(("rx", now, bytes(args[0])))
         after = self.peek()
         t = enc(now)
         d = enc(now + self.c["ACK_DELAY_US"] / 1000000) - t
@@ -353,7 +367,7 @@ class Tracer:
     def on_send(self, now, args, kwargs):
         c = self.ep.conn
         before = self.peek()
-        self.starts, self.ackcalls, self.wa_entered = [], [], False
+        self.starts, self.ackcalls, self.wa_entered, self.frame_stops = [], [], False, []
         try:
             blocked = c._loss._pacer.next_send_time(now=now) is not None
         except Exception:
@@ -372,7 +386,8 @@ class Tracer:
         self.raised(n_raised, "datagrams_to_send")
         after = self.peek()
         datagrams = [bytes(x[0]) for x in (r or [])]
-        self.hist.append(("tx", now, datagrams))
+        txinfo = {"start_failed": False, "pending": None}
+        self.hist.append(("tx", now, datagrams, txinfo))
         from aioquic.quic.packet import QuicPacketType
         tsp = {QuicPacketType.INITIAL: 0, QuicPacketType.HANDSHAKE: 1, QuicPacketType.ZERO_RTT: 2, QuicPacketType.ONE_RTT: 2}
         first = {}
@@ -382,12 +397,19 @@ class Tracer:
         for sp, room in self.ackcalls:
             rooms.setdefault(sp, room)
         t = enc(now)
+        # a frame written before the ACK in the first application packet (PATH_CHALLENGE on an unvalidated path) made
+        # the builder stop: the ACK branch was not reached (premise of the model's Send op: it is reached)
+        app_starts = [i for i, (pt, okk) in enumerate(self.starts) if tsp[pt] == 2 and okk]
+        early_stop = bool(app_starts) and 2 not in rooms and any(
+            ft != self.c["FT_ACK"] and ns == app_starts[0] + 1 for ft, ns, _na in self.frame_stops)
+        txinfo["start_failed"] = (first.get(2) is False or early_stop
+                                  or (not self.wa_entered and any(not okk for _, okk in self.starts)))
         if not before["closing"]:
             for sp in range(3):
                 if sp < 2:
                     emit = first.get(sp) is True
                 else:
-                    emit = self.wa_entered and keys[2] and first.get(2) is not False
+                    emit = self.wa_entered and keys[2] and first.get(2) is not False and not early_stop
                 if not emit:
                     continue
                 if self.lrt[sp] is None:
@@ -399,6 +421,9 @@ class Tracer:
                 room = rooms.get(sp, BIG_ROOM)
                 self.tin += [sp, 2, t, delay, room, int(blocked and sp == 2)]
                 self.tout.append(Pending(sp, datagrams, sp in rooms))
+                if sp == 2:
+                    txinfo["pending"] = self.tout[-1]
+                    self.counts["paced"] += int(blocked)
                 self.nops += 1
                 self.counts["send"] += 1
                 if sp in rooms:
@@ -430,11 +455,14 @@ class Tracer:
             if frame is not None:
                 out += [13, len(frame)] + list(frame)
                 self.counts["frames"] += 1
+                x.result = "frame"
             elif x.entered:
                 out += [11]
                 self.counts["stop"] += 1
+                x.result = "stop"
             else:
                 out += [10]
+                x.result = "none"
         self.tout = out
         return out
 
@@ -452,15 +480,13 @@ def oracle_endpoint(pair, ep, tracer, index_of, end_time, max_ack_delay):
     rdir = "s2c" if me == "client" else "c2s"
     # what was delivered to me, genuine, per space (independent parse of the delivered datagrams)
     delivered = [[], [], []]      # (time, pn)
-    for (t, idx, _src, dst) in pair.network.delivered:
-        if dst != ep.addr:
+    for h in tracer.hist:
+        if h[0] != "rx":
             continue
-        rec = pair.network.wire_log[idx]
-        if rec.direction != rdir:
-            continue
-        for p in obs.by_datagram.get(idx, []):
-            if p.decrypted and p.type in PKT_SP and not getattr(p, "note", None) == "corrupt":
-                delivered[PKT_SP[p.type]].append((t, p.pn))
+        idx = index_of.get(h[2])
+        for p in obs.by_datagram.get(idx, []) if idx is not None else []:
+            if p.decrypted and p.type in PKT_SP and p.direction == rdir:
+                delivered[PKT_SP[p.type]].append((h[1], p.pn))
     # what I sent: (time, sp, pn, ranges|None, close)
     sent = []
     for h in tracer.hist:
@@ -532,6 +558,17 @@ def oracle_endpoint(pair, ep, tracer, index_of, end_time, max_ack_delay):
             cover = [s for s in sent if s[1] == 2 and t <= s[0] <= deadline and s[3]
                      and any(a <= pn <= b for a, b in s[3])]
             if not cover:
+                # the theorem's premise: a packet of the space can be started and has room for the frame.  When the last
+                # datagrams_to_send before the deadline was stopped by the packet builder (anti-amplification budget on an
+                # unvalidated path, sim.md S2), the ACK cannot be sent: exempt, counted.
+                lasttx = None
+                for h2 in tracer.hist[hi:]:
+                    if h2[0] == "tx" and h2[1] <= deadline:
+                        lasttx = h2
+                if lasttx is not None and (lasttx[3]["start_failed"] or
+                                           (lasttx[3]["pending"] is not None and getattr(lasttx[3]["pending"], "result", "") == "stop")):
+                    tracer.counts["exempt_builder_stop"] = tracer.counts.get("exempt_builder_stop", 0) + 1
+                    continue
                 acks = [s for s in sent if s[1] == 2 and t <= s[0] <= deadline and s[3]]
                 capped = bool(acks) and all(len(s[3]) >= cap and min(a for a, _ in s[3]) > pn for s in acks)
                 bad.append(("ack-eliciting packet %d (largest so far, application space) accepted at %.6f is not covered by "
